@@ -1,7 +1,10 @@
 (* C20 - NTS key exchange: agreeing keys, bad offers refused, failures leave no state.
 
-   Model: Model/Ntske.v (ReadData, ExportKeys, dialTLS, exchangeKeys, FetchData, StoreCookie of
-   net/ntske as they are in /repo now).  A key-exchange peer is a script (Model/NtskeOracle.v):
+   Model: Model/Ntske.v (ReadData, ExportKeys, dialTLS, dialQUIC, both branches of exchangeKeys,
+   FetchData, StoreCookie of net/ntske as they are in /repo now).  [quic] is the transport flag
+   Fetcher.QUIC.Enabled: false = key exchange over TLS/TCP (exchange_keys, NTP over IP, default
+   port 123), true = over QUIC/SCION (exchange_keys_quic, NTP over SCION, default port 10123);
+   exchange_keys_of quic is exchangeKeys of such a Fetcher.  A key-exchange peer is a script (Model/NtskeOracle.v):
    whether anything listens, its ALPN list, the records it sends (any types, critical bits and
    bodies), raw bytes after them, after how many bytes the connection ends, its address.  A
    script is "strict" when its records are encoded the way a conforming server encodes them
@@ -10,21 +13,33 @@
    error/warning/unknown records anywhere, truncation at any byte).  The TLS exporter is an
    uninterpreted function of (label, context, length); [exporter_ok] says the session answers
    the two RFC 8915 queries (TLS 1.3 always does).  crypto/tls' ALPN negotiation is modelled
-   by [tls_negotiate]. *)
+   by [tls_negotiate], the one inside QUIC (application protocol mandatory) by [quic_negotiate]. *)
 From ST Require Import Base.Ints Model.Ntske Model.NtskeOracle Model.NtskeRun Proofs.NtskeProofs.
 From Coq Require Import ZArith List Bool.
 Import ListNotations.
 Open Scope Z_scope.
 
 (* MAIN: the property oracle accepts what the model does on EVERY history of FetchData and
-   StoreCookie calls against any scripts (conforming or not) - success exactly when the ALPN
+   StoreCookie calls on one Fetcher of either transport (a Fetcher never changes its transport)
+   against any scripts (conforming or not) - success exactly when the ALPN
    is ntske/1 and the records end properly with AES-SIV-CMAC-256 and a cookie, keys equal to
    the peer's exporter values, pool = cookies issued, target = named server/port or the
    defaults, no exchange while cookies are left, a complete new exchange after a failure *)
-Theorem C20_oracle_holds_on_model : forall ms,
-  Forall mop_ok ms -> C20_ok (map op_of ms) (model_run kzero ms) = true.
+Theorem C20_oracle_holds_on_model : forall quic ms,
+  Forall mop_ok ms -> C20_ok quic (map op_of ms) (model_run quic kzero ms) = true.
 Proof. exact oracle_holds_on_model. Qed.
 Print Assumptions C20_oracle_holds_on_model.
+
+(* the two instances spelled out: a TLS fetcher (default port 123), a QUIC/SCION fetcher (10123) *)
+Theorem C20_oracle_holds_on_model_tls : forall ms,
+  Forall mop_ok ms -> C20_ok false (map op_of ms) (model_run false kzero ms) = true.
+Proof. exact (oracle_holds_on_model false). Qed.
+Print Assumptions C20_oracle_holds_on_model_tls.
+
+Theorem C20_oracle_holds_on_model_quic : forall ms,
+  Forall mop_ok ms -> C20_ok true (map op_of ms) (model_run true kzero ms) = true.
+Proof. exact (oracle_holds_on_model true). Qed.
+Print Assumptions C20_oracle_holds_on_model_quic.
 
 (* an exchange with a conforming-encoding peer succeeds iff the peer negotiated ntske/1 and,
    among the records that arrived completely, an end-of-message record is reached before any
@@ -52,6 +67,88 @@ Theorem C20_truncated_fails : forall ex sc, sc_strict sc = true -> exporter_ok e
   snd (exchange_keys ex (peer_of_script sc)) <> 0.
 Proof. exact no_end_fails. Qed.
 Print Assumptions C20_truncated_fails.
+
+(* ---------- the same over QUIC/SCION (exchangeKeys with QUIC.Enabled); st = what the fetcher
+   held before the call ---------- *)
+
+(* success iff the QUIC handshake completed with ntske/1 (it cannot complete with anything else,
+   C20_quic_handshake_only_ntske) and the records delivered are acceptable *)
+Theorem C20_success_iff_quic : forall ex st sc, sc_strict sc = true -> exporter_ok ex ->
+  (snd (exchange_keys_quic ex st (peer_of_script sc)) = 0 <->
+   alpn_agreed_quic sc = true /\ stream_accepted (sc_recs sc) (sc_cut sc) = true).
+Proof. exact success_iff_quic. Qed.
+Print Assumptions C20_success_iff_quic.
+
+(* on success: keys = exporter values, pool = cookies issued, server/port = the ones named or
+   else the host of the configured remote address and 10123 (expected_data_quic) *)
+Theorem C20_success_data_quic : forall ex st sc, sc_strict sc = true -> exporter_ok ex ->
+  snd (exchange_keys_quic ex st (peer_of_script sc)) = 0 ->
+  fst (exchange_keys_quic ex st (peer_of_script sc)) = expected_data_quic ex sc.
+Proof. exact success_data_quic. Qed.
+Print Assumptions C20_success_data_quic.
+
+(* the default target spelled out: a peer that names neither server nor port *)
+Theorem C20_quic_default_target : forall ex st sc, sc_strict sc = true -> exporter_ok ex ->
+  snd (exchange_keys_quic ex st (peer_of_script sc)) = 0 ->
+  (forall r, In r (sc_recs sc) -> r_type r <> 6 /\ r_type r <> 7) ->
+  k_server (fst (exchange_keys_quic ex st (peer_of_script sc))) = sc_host sc /\
+  k_port (fst (exchange_keys_quic ex st (peer_of_script sc))) = 10123.
+Proof. exact quic_default_target. Qed.
+Print Assumptions C20_quic_default_target.
+
+Theorem C20_truncated_fails_quic : forall ex st sc, sc_strict sc = true -> exporter_ok ex ->
+  (forall r, In r (delivered (sc_recs sc) (sc_cut sc)) -> r_type r <> 0) ->
+  snd (exchange_keys_quic ex st (peer_of_script sc)) <> 0.
+Proof. exact no_end_fails_quic. Qed.
+Print Assumptions C20_truncated_fails_quic.
+
+(* dialQUIC has no ALPN check of its own and needs none: a QUIC handshake in which the client
+   offers only ntske/1 completes with ntske/1 or not at all *)
+Theorem C20_quic_handshake_only_ntske : forall srv p,
+  quic_negotiate [alpn_ntske] srv = HsOk p -> bytes_eqb p alpn_ntske = true.
+Proof. exact quic_negotiate_ntske. Qed.
+Print Assumptions C20_quic_handshake_only_ntske.
+
+(* for ANY peer and byte stream: what a successful exchange over QUIC implies *)
+Theorem C20_success_implies_quic : forall ex st p d, exchange_keys_quic ex st p = (d, 0) ->
+  p_up p = true /\
+  (exists proto, quic_negotiate [alpn_ntske] (p_alpn p) = HsOk proto /\ bytes_eqb proto alpn_ntske = true) /\
+  k_cookies d <> [] /\ k_algo d = 15 /\
+  ex exporter_label ctx_c2s key_len = Some (k_c2s d) /\ ex exporter_label ctx_s2c key_len = Some (k_s2c d) /\
+  forallb cookie_fits (k_cookies d) = true.
+Proof. exact exchange_success_facts_quic. Qed.
+Print Assumptions C20_success_implies_quic.
+
+(* every exchange over QUIC starts from the defaults returned by dialQUIC (fix commit 38f59d0,
+   D-C20b): whatever the fetcher held before - server, port, keys of an earlier exchange - has
+   no influence on the result; a failed dial leaves f.data as it was (FetchData then clears it) *)
+Theorem C20_quic_exchange_ignores_previous_state : forall ex st st' p,
+  exchange_keys_quic ex st p = exchange_keys_quic ex st' p \/
+  (exchange_keys_quic ex st p = (st, e_dial) /\ exchange_keys_quic ex st' p = (st', e_dial)).
+Proof. exact exchange_quic_ignores_state. Qed.
+Print Assumptions C20_quic_exchange_ignores_previous_state.
+
+Theorem C20_keys_agree_quic : forall ex st p dC dS dS',
+  exchange_keys_quic ex st p = (dC, 0) -> export_keys ex dS = (dS', 0) ->
+  k_c2s dC = k_c2s dS' /\ k_s2c dC = k_s2c dS' /\
+  ex exporter_label ctx_c2s key_len = Some (k_c2s dC) /\ ex exporter_label ctx_s2c key_len = Some (k_s2c dC) /\
+  ctx_c2s <> ctx_s2c.
+Proof. exact keys_agree_quic. Qed.
+Print Assumptions C20_keys_agree_quic.
+
+(* the project's own key-exchange server over SCION (core/server/ntske_scion.go sends the same
+   message of newNTSKEMsg) *)
+Theorem C20_own_server_exchange_quic : forall ex st mk ip port host, exporter_ok ex ->
+  body_ok ip -> (forall i, body_ok (mk i)) -> (forall i, Z.of_nat (length (mk i)) <= 896) -> 0 <= port < 65536 ->
+  exists c2s s2c,
+    ex exporter_label ctx_c2s key_len = Some c2s /\ ex exporter_label ctx_s2c key_len = Some s2c /\
+    exchange_keys_quic ex st {| p_up := true; p_alpn := [alpn_ntske]; p_host := host; p_stream := server_msg mk ip port |}
+    = ({| k_c2s := c2s; k_s2c := s2c; k_server := ip; k_port := port;
+          k_cookies := map mk (seq 0 8); k_algo := 15 |}, 0).
+Proof. exact own_server_exchange_quic. Qed.
+Print Assumptions C20_own_server_exchange_quic.
+
+(* ---------- either transport ---------- *)
 
 (* for ANY peer and byte stream (conforming or not): success implies ALPN ntske/1 was
    negotiated, at least one cookie, algorithm 15, keys = exporter values of the session, and
@@ -107,27 +204,28 @@ Theorem C20_own_server_exchange : forall ex mk ip port host, exporter_ok ex ->
 Proof. exact own_server_exchange. Qed.
 Print Assumptions C20_own_server_exchange.
 
-(* a failed FetchData leaves the zero state, and it was an exchange attempt *)
-Theorem C20_failure_leaves_nothing : forall ex st p st' fo,
-  fetch_data ex st p = (st', fo) -> fo_err fo <> 0 -> st' = kzero /\ fo_exchanged fo = true.
+(* a failed FetchData leaves the zero state, and it was an exchange attempt (either transport) *)
+Theorem C20_failure_leaves_nothing : forall quic ex st p st' fo,
+  fetch_data quic ex st p = (st', fo) -> fo_err fo <> 0 -> st' = kzero /\ fo_exchanged fo = true.
 Proof. exact fetch_failure_clears. Qed.
 Print Assumptions C20_failure_leaves_nothing.
 
 (* with an empty pool (in particular after a failure) FetchData is a complete exchange whose
-   outcome depends on nothing the fetcher held before *)
-Theorem C20_next_attempt_is_complete_exchange : forall ex st p, k_cookies st = [] ->
-  fetch_data ex st p = fetch_data ex kzero p /\
-  fo_exchanged (snd (fetch_data ex st p)) = true /\
-  fo_err (snd (fetch_data ex st p)) = snd (exchange_keys ex p) /\
-  (snd (exchange_keys ex p) = 0 ->
-     fo_data (snd (fetch_data ex st p)) = fst (exchange_keys ex p) /\
-     fst (fetch_data ex st p) = set_cookies (fst (exchange_keys ex p)) (tl (k_cookies (fst (exchange_keys ex p))))).
-Proof. intros ex st p H. split; [apply fetch_fresh_independent; exact H|apply fetch_exchange_result; exact H]. Qed.
+   outcome depends on nothing the fetcher held before (either transport; over QUIC this rests
+   on C20_quic_exchange_ignores_previous_state) *)
+Theorem C20_next_attempt_is_complete_exchange : forall quic ex st p, k_cookies st = [] ->
+  fetch_data quic ex st p = fetch_data quic ex kzero p /\
+  fo_exchanged (snd (fetch_data quic ex st p)) = true /\
+  fo_err (snd (fetch_data quic ex st p)) = snd (exchange_keys_of quic ex st p) /\
+  (snd (exchange_keys_of quic ex st p) = 0 ->
+     fo_data (snd (fetch_data quic ex st p)) = fst (exchange_keys_of quic ex st p) /\
+     fst (fetch_data quic ex st p) = set_cookies (fst (exchange_keys_of quic ex st p)) (tl (k_cookies (fst (exchange_keys_of quic ex st p))))).
+Proof. intros quic ex st p H. split; [apply fetch_fresh_independent; exact H|apply fetch_exchange_result; exact H]. Qed.
 Print Assumptions C20_next_attempt_is_complete_exchange.
 
 (* while cookies are left there is no exchange: the cached data is returned and one cookie used *)
-Theorem C20_rekey_only_when_pool_empty : forall ex st p c rest, k_cookies st = c :: rest ->
-  fetch_data ex st p = (set_cookies st rest, {| fo_err := 0; fo_data := st; fo_exchanged := false |}).
+Theorem C20_rekey_only_when_pool_empty : forall quic ex st p c rest, k_cookies st = c :: rest ->
+  fetch_data quic ex st p = (set_cookies st rest, {| fo_err := 0; fo_data := st; fo_exchanged := false |}).
 Proof. exact fetch_cached. Qed.
 Print Assumptions C20_rekey_only_when_pool_empty.
 
@@ -150,8 +248,28 @@ Example C20_nonvacuous :
   exporter_ok ex_demo /\ sc_strict sc_good = true /\ sc_strict sc_bad = true /\
   snd (exchange_keys ex_demo (peer_of_script sc_good)) = 0 /\
   k_cookies (fst (exchange_keys ex_demo (peer_of_script sc_good))) = [[7; 7]; [8; 8]] /\
-  map o_err (model_run kzero [MFetch sc_bad ex_demo; MFetch sc_none ex_demo; MFetch sc_good ex_demo;
-                              MFetch sc_none ex_demo; MFetch sc_none ex_demo]) = [5; 11; 0; 0; 11].
+  map o_err (model_run false kzero [MFetch sc_bad ex_demo; MFetch sc_none ex_demo; MFetch sc_good ex_demo;
+                                    MFetch sc_none ex_demo; MFetch sc_none ex_demo]) = [5; 11; 0; 0; 11].
 Proof.
   split; [exists ctx_c2s, ctx_s2c; split; reflexivity|]. repeat split; vm_compute; reflexivity.
 Qed.
+
+(* over QUIC: the history of D-C20b - a peer names 10.1.1.1:4123 and issues one cookie, the next
+   exchange names nothing: its target is the key-exchange host and 10123, not the stale one; a
+   peer without ntske/1 in its ALPN list gives a dial error *)
+Definition rec_srv := {| r_type := 6; r_crit := false; r_body := [49; 48; 46; 49; 46; 49; 46; 49] |}.
+Definition rec_prt := {| r_type := 7; r_crit := false; r_body := [16; 27] |}.
+Definition sc_named := {| sc_mode := 0; sc_alpn := [ntske1]; sc_recs := [rec_np; rec_alg; rec_srv; rec_prt; rec_ck 7; rec_end];
+                          sc_tail := []; sc_cut := 100; sc_host := [49] |}.
+Definition sc_plain := {| sc_mode := 0; sc_alpn := [ntske1]; sc_recs := [rec_np; rec_alg; rec_ck 9; rec_end];
+                          sc_tail := []; sc_cut := 100; sc_host := [49] |}.
+Definition sc_h2 := {| sc_mode := 0; sc_alpn := [[104; 50]]; sc_recs := [rec_np; rec_alg; rec_ck 9; rec_end];
+                       sc_tail := []; sc_cut := 100; sc_host := [49] |}.
+
+Example C20_nonvacuous_quic :
+  sc_strict sc_named = true /\ sc_strict sc_plain = true /\
+  alpn_agreed_quic sc_plain = true /\ alpn_agreed_quic sc_h2 = false /\
+  map (fun o => (o_err o, k_server (o_data o), k_port (o_data o)))
+      (model_run true kzero [MFetch sc_named ex_demo; MFetch sc_plain ex_demo; MFetch sc_bad ex_demo; MFetch sc_h2 ex_demo])
+  = [(0, [49; 48; 46; 49; 46; 49; 46; 49], 4123); (0, [49], 10123); (5, [], 0); (11, [], 0)].
+Proof. repeat split; vm_compute; reflexivity. Qed.
